@@ -7,11 +7,15 @@ META = dict(
                'surface, closed intervals) and the polygon test on its coordinates answers true for the surface position (same unit as C02); the '
                'polygon wrapper asks the kernel for the point and, in spherical worlds only, for the point shifted by 2 pi towards the other side of '
                'zero longitude, and answers the disjunction; the Point<2> difference / dot product / squared norm used by the kernel compute their '
-               'definitions.',
+               'definitions. A plume (<= 3 cross sections, depths ascending) writes iff min depth <= depth <= max depth and the normalised distance is <= 1, '
+               'where the distance is the ellipse test called with centre, semi-major axis and eccentricity interpolated linearly between the two bracketing '
+               'cross sections (the deepest one below it), the rotation angle through interpolate_angle_across_zero at the same fraction, and above the '
+               'shallowest cross section the half-ellipsoid x^2/a^2+y^2/b^2+z^2/c^2 of the first cross section; the ellipse test computes '
+               '(x\'/a)^2+(y\'/b)^2 and reports > 1 for an ellipse without area.',
     level_note='Trusted: translator, shims, CBMC; the winding-number theorem (non-zero exactly inside a simple polygon) and that the '
                'floating-point orientation test has the sign of the exact one are mathematics outside the proof; Point<2> operators are separate units.',
-    scope='Utilities::polygon_contains_point (alias wrapper), Utilities::interpolate_angle_across_zero (plume rotation angle), Utilities::fraction_from_ellipse_center (plume ellipse test), Point<2> operator-/dot/norm_square; extent guard of ContinentalPlate::properties (OceanicPlate/MantleLayer: same contract, run under C02)',
-    not_covered=['the winding-number kernel polygon_contains_point_implementation itself (contract and ghost definition are written - unit polygon_impl - but the proof does not finish in the time budget; it is not counted)', 'plume cross-section interpolation and the half-ellipsoid tip (Plume::properties: std::upper_bound over iterators is outside the translator)', 'sign-exactness of the floating-point orientation predicate'],
+    scope='Utilities::polygon_contains_point (alias wrapper), Utilities::interpolate_angle_across_zero (plume rotation angle), Utilities::fraction_from_ellipse_center (plume ellipse test), Plume::properties (cross-section interpolation, half-ellipsoid tip, writes iff covers), Point<2> operator-/dot/norm_square; extent guard of ContinentalPlate::properties (OceanicPlate/MantleLayer: same contract, run under C02)',
+    not_covered=['the winding-number kernel polygon_contains_point_implementation itself (contract and ghost definition are written - unit polygon_impl - but the proof does not finish in the time budget; it is not counted)', 'the semi-major axis used for the ellipse test above the shallowest cross section (half-ellipsoid taper inside the tip branch of Plume::properties)', 'sign-exactness of the floating-point orientation predicate'],
     enforced_elsewhere={'Point2_op_sub': 'C04/point2_sub', 'Point2_dot': 'C04/point2_dot', 'Point2_norm_square': 'C04/point2_norm_square',
                         'Utilities_polygon_contains_point_implementation': 'C04/polygon_impl'},
 )
@@ -73,7 +77,7 @@ import importlib.util as _ilu
 _spec = _ilu.spec_from_file_location('c02', os.path.join(os.path.dirname(os.path.abspath(__file__)), 'C02.py'))
 _c02 = _ilu.module_from_spec(_spec)
 _spec.loader.exec_module(_c02)
-UNITS = [u for u in UNITS_ALL if not u.get('experimental')] + [u for u in _c02.UNITS if u['name'] == 'continental_plate_properties']
+UNITS = [u for u in UNITS_ALL if not u.get('experimental')] + [u for u in _c02.UNITS if u['name'] in ('continental_plate_properties', 'plume_properties')]
 
 
 # ----------------------------------------------------------------------------- native replay oracle
